@@ -117,7 +117,20 @@ func (f *fetcher) Head(_ context.Context, ref name.Reference, _ ...string) (*ggc
 // cacheLikeClient is the sim client with the one behaviour of controller-runtime's cache
 // reader that the package reconciler leans on: a typed object returned by Get carries its
 // GroupVersionKind (the reconciler builds the controller reference from it).
-type cacheLikeClient struct{ *sim.Client }
+type cacheLikeClient struct {
+	*sim.Client
+	e *env
+}
+
+// List is served by the env's lister while one is set: the revision informer's store is behind
+// (it has not seen the latest writes) when the reconciler lists, and has caught up by the time
+// the reconciler's next Get arrives.
+func (c cacheLikeClient) List(ctx context.Context, list client.ObjectList, opts ...client.ListOption) error {
+	if c.e != nil && c.e.lister != nil {
+		return c.e.lister.List(ctx, list, opts...)
+	}
+	return c.Client.List(ctx, list, opts...)
+}
 
 func (c cacheLikeClient) Get(ctx context.Context, key client.ObjectKey, obj client.Object, opts ...client.GetOption) error {
 	err := c.Client.Get(ctx, key, obj, opts...)
@@ -136,6 +149,8 @@ type env struct {
 	kind *pkgKind
 	f    *fetcher
 	rec  *manager.Reconciler
+	// lister, when set, serves the reconciler's List calls (see cacheLikeClient.List)
+	lister *sim.Client
 }
 
 func newEnv(w *sim.World, kind *pkgKind, st *regState, m *monitor) *env {
@@ -147,7 +162,7 @@ func newEnv(w *sim.World, kind *pkgKind, st *regState, m *monitor) *env {
 // rebuild constructs the reconciler as SetupProvider/SetupConfiguration/SetupFunction do (a
 // process restart: the reconciler keeps no state, the client's fault plan is kept).
 func (e *env) rebuild() {
-	cl := cacheLikeClient{e.c}
+	cl := cacheLikeClient{Client: e.c, e: e}
 	mgr := xrk.NewManager(e.w, cl)
 	e.rec = manager.NewReconciler(mgr,
 		manager.WithNewPackageFn(e.kind.np),
